@@ -217,7 +217,13 @@ func Unmarshal(data []byte, v any) error {
 		return err
 	}
 	if buf.Len() > 0 {
-		return fmt.Errorf("unmarshal did not consume all data, had extra %d bytes: % x", buf.Len(), buf.Bytes())
+		// Only the start of the extra data is quoted: the error text ends up
+		// in error messages sent to the peer, whose size must not depend on it
+		extra := buf.Bytes()
+		if len(extra) > 16 {
+			return fmt.Errorf("unmarshal did not consume all data, had extra %d bytes: % x...", len(extra), extra[:16])
+		}
+		return fmt.Errorf("unmarshal did not consume all data, had extra %d bytes: % x", len(extra), extra)
 	}
 	return nil
 }
